@@ -35,8 +35,8 @@ def trunc(q):
 
 def ideal(case, stop_on_violation=True):
     """The property, operationally: every scheduled task instance runs once in the sample equal to its truncated
-    time. Returns (per-sample {closure: count}, pending multiset, premise_ok)."""
-    pend = {}
+    time. Returns (per-sample {closure: count}, pending multiset {(when, closure): count}, premise_ok)."""
+    pend = {}  # when -> {closure: count}
     ok = True
 
     def add(now, q, c, k=1):
@@ -44,22 +44,24 @@ def ideal(case, stop_on_violation=True):
         w = trunc(q)
         if w <= now:
             ok = False
-        pend[(w, c)] = pend.get((w, c), 0) + k
+        b = pend.setdefault(w, {})
+        b[c] = b.get(c, 0) + k
 
     for q, c in case["init"]:
         add(0, q, c)
     ticks = []
+    clos, dsp = case["clos"], case["dsp"]
     for t in range(case["N"]):
-        due = {}
-        for (w, c) in [k for k in pend if k[0] == t]:
-            due[c] = due.get(c, 0) + pend.pop((w, c))
+        due = pend.pop(t, {})
         ticks.append(due)
-        for c, k in sorted(due.items()):
-            for r in case["clos"][c]["rules"]:
+        for c in sorted(due):
+            k = due[c]
+            for r in clos[c]["rules"]:
                 add(t, 4 * t + r[0], r[1], k)
-        for r in case["dsp"].get(str(t), []):
+        for r in dsp.get(str(t), ()):
             add(t, 4 * t + r[0], r[1])
-    return ticks, pend, ok
+    flat = {(w, c): k for w, b in pend.items() for c, k in b.items()}
+    return ticks, flat, ok
 
 
 def premise_ok(case):
@@ -252,17 +254,20 @@ def fdec(h):
 def property_on_output(case, fields, out_vals):
     """Evaluate C11 directly on what an implementation produced (premise-respecting cases only).
     Returns None when the property holds on all produced samples, else a description of the first failure."""
-    pend = {}
+    pend = {}  # when -> {closure: count}
+
+    def add(w, c, k):
+        b = pend.setdefault(w, {})
+        b[c] = b.get(c, 0) + k
+
     for q, c in case["init"]:
-        k = (trunc(q), c)
-        pend[k] = pend.get(k, 0) + 1
+        add(trunc(q), c, 1)
+    clos, dsp = case["clos"], case["dsp"]
     for t, vals in enumerate(out_vals):
         got = decode(vals, fields)
         if got is None:
             return f"sample {t}: counters {vals} are not sums of task digits"
-        want = {}
-        for (w, c) in [k for k in pend if k[0] == t]:
-            want[c] = want.get(c, 0) + pend.pop((w, c))
+        want = pend.pop(t, {})
         if got != want:
             for c in sorted(set(got) | set(want)):
                 g, w = got.get(c, 0), want.get(c, 0)
@@ -270,13 +275,11 @@ def property_on_output(case, fields, out_vals):
                     return f"sample {t}: task of closure {c} scheduled for sample {t} ran {g} time(s) instead of {w} (dropped or late)"
                 if g > w:
                     return f"sample {t}: closure {c} ran {g} time(s) but only {w} instance(s) were scheduled for sample {t} (early, late or duplicated)"
-        for c, k in sorted(want.items()):
-            for r in case["clos"][c]["rules"]:
-                kk = (trunc(4 * t + r[0]), r[1])
-                pend[kk] = pend.get(kk, 0) + k
-        for r in case["dsp"].get(str(t), []):
-            kk = (trunc(4 * t + r[0]), r[1])
-            pend[kk] = pend.get(kk, 0) + 1
+        for c in sorted(want):
+            for r in clos[c]["rules"]:
+                add(trunc(4 * t + r[0]), r[1], want[c])
+        for r in dsp.get(str(t), ()):
+            add(trunc(4 * t + r[0]), r[1], 1)
     return None
 
 
@@ -473,8 +476,8 @@ def run(ck):
                 cases.append(("corpus", json.loads(l)))
                 ncorpus += 1
     quick = ck.tier == "quick"
-    n_valid = 2400 if quick else 20000
-    n_bad = 400 if quick else 3000
+    n_valid = 2400 if quick else 14000
+    n_bad = 400 if quick else 2000
     rng = ck.rng.fork("tasksets")
     gens = [("oneshots", gen_oneshots), ("chains", gen_chains), ("spawn", gen_spawn), ("dsp", gen_dsp)]
     if not ck.replay:
@@ -494,12 +497,13 @@ def run(ck):
     # ---------------- render ----------------
     prepared = []
     for tag, case in cases:
-        hint, _, _ = ideal(case)
+        hint, _pend, _ = ideal(case)
         fields, K = assign_digits(case, hint)
         if K > MAX_COUNTERS:  # cannot happen with <= 50 closures and counts <= 40; keep the case honest
             continue
         src = render(case, fields, K)
-        prepared.append({"tag": tag, "case": case, "fields": fields, "K": K, "src": src,
+        prepared.append({"tag": tag, "case": case, "fields": fields, "K": K, "src": src, "hint": hint,
+                         "pending": sum(_pend.values()),
                          "valid": premise_ok(case), "f13": in_f13_class(case)})
     impl_lines = [json.dumps({"src": p["src"], "n": p["case"]["N"], "backends": "both"}) for p in prepared]
     fixture_lines = []
@@ -543,7 +547,7 @@ def run(ck):
         r = json.loads(answers[i])
         key = model_lines[i]
         pred = parse_model(model_ans[i]) if (model_ok and model_ans[i]) else None
-        hint, pend, _ = ideal(case)
+        hint = p["hint"]
         if key not in distinct:
             distinct.add(key)
             ex = sum(sum(d.values()) for d in hint)
@@ -551,7 +555,7 @@ def run(ck):
             if ex > 0:
                 nontrivial += 1
             ties += sum(1 for d in hint if sum(d.values()) > 1)
-            max_pending = max(max_pending, sum(pend.values()))
+            max_pending = max(max_pending, p["pending"])
         if p["f13"]:
             f13_cases += 1
         if not p["valid"]:
